@@ -1,7 +1,8 @@
 (* C11, the acknowledgement layer (A6): how ProcessLeaderAofed / ProcessLeaderAcked count, and the run theorem:
    when an acknowledgement event completes a pending lock (DoAckLock(true) runs), exactly a_cfg positive events and no
    negative one have been seen for that registration -- for every run in which every registration is made for a
-   record that was just granted (l_ack = 0) and is not already registered. *)
+   record that was just granted (l_ack = 0) and is not already registered.  Registrations dropped by an UNLOCK record
+   (ProcessLeaderPushUnLock, `unregister`) need no hypothesis. *)
 From Coq Require Import String ZifyN ZifyBool ZifyNat.
 From Slock Require Import Engine.Types Engine.Queues Engine.Timers Engine.Engine Engine.Engine2 Engine.Ack.
 From Slock Require Import Engine.AckProofsBase Engine.AckProofsAck Engine.AckProofsRel.
@@ -60,9 +61,13 @@ Fixpoint post_ok (fuel : nat) (st : astate) (todo : list event) : bool :=
       match todo with
       | [] => true
       | EAof a :: rest =>
-          match a_lock a, a_ref a with
-          | true, Some r => reg_fresh st r && (let '(st1, e1) := register st r in post_ok f st1 (rest ++ e1))
-          | _, _ => post_ok f st rest
+          match a_ref a with
+          | Some r =>
+              if leader (a_db st) then
+                if a_lock a then reg_fresh st r && (let '(st1, e1) := register st r in post_ok f st1 (rest ++ e1))
+                else (let '(st1, e1) := unregister st r in post_ok f st1 (rest ++ e1))
+              else post_ok f st rest
+          | None => post_ok f st rest
           end
       | _ :: rest => post_ok f st rest
       end
@@ -191,6 +196,30 @@ Proof.
     + intros i ok Hi. apply I6. lia.
 Qed.
 
+(* one dropped registration (ProcessLeaderPushUnLock): no hypothesis needed *)
+Lemma ainv_drop cfg hist st i s' :
+  ainv cfg hist st -> arel (a_db st) s' -> ainv cfg hist (mkA s' (a_cfg st) (reg_del (a_reg st) i) (a_next st)).
+Proof.
+  intros [I1 I2 I3 I4 I5 I6] A. constructor; cbn [a_db a_cfg a_reg a_next]; auto.
+  - intros e He. unfold reg_del in He. apply filter_In in He. apply I2. tauto.
+  - unfold reg_del. clear -I3. induction (a_reg st) as [|x l IH]; simpl; auto. inversion I3; subst.
+    destruct (negb (fst x =? i)); simpl; auto. constructor; auto. intros Hin. apply in_map_iff in Hin.
+    destruct Hin as (y & E & Hy). apply filter_In in Hy. apply H1. rewrite <- E. apply in_map. tauto.
+  - unfold reg_del. clear -I4. induction (a_reg st) as [|x l IH]; simpl; auto. inversion I4; subst.
+    destruct (negb (fst x =? i)); simpl; auto. constructor; auto. intros Hin. apply in_map_iff in Hin.
+    destruct Hin as (y & E & Hy). apply filter_In in Hy. apply H1. rewrite <- E. apply (in_map (fun e => snd (snd e))). tauto.
+  - intros e He. unfold reg_del in He. apply filter_In in He. eapply entry_ok_arel; eauto. apply I5. tauto.
+Qed.
+
+Lemma unregister_inv cfg hist st r st' ev : ainv cfg hist st -> unregister st r = (st', ev) -> ainv cfg hist st'.
+Proof.
+  intros I H. unfold unregister in H. cbv zeta in H.
+  destruct (aget (store (a_db st)) r) as [l|]; [|inv H; auto].
+  destruct (reg_find_req (a_reg st) (c_req (l_cmd l))) as [[i r0]|]; [|inv H; auto].
+  destruct (finish (do_ack (a_db st) r false)) as [s1 e1] eqn:E. inv H.
+  apply ainv_drop; auto. eapply finish_do_ack_arel; eauto.
+Qed.
+
 Lemma post_go_inv cfg hist fuel : forall st todo acc st' ev,
   ainv cfg hist st -> post_ok fuel st todo = true -> post_go fuel st todo acc = (st', ev) -> ainv cfg hist st'.
 Proof.
@@ -198,9 +227,11 @@ Proof.
   - inv H. auto.
   - destruct todo as [|e rest]; [inv H; auto|].
     destruct e; eauto.
-    destruct (a_lock r) eqn:Al; eauto. destruct (a_ref r) as [x|] eqn:Ar; eauto.
-    apply andb_prop in OK. destruct OK as [Fr OK].
-    destruct (register st x) as [st1 e1] eqn:E. eapply IH; [|exact OK|exact H]. eapply register_inv; eauto.
+    destruct (a_ref r) as [x|] eqn:Ar; eauto. destruct (leader (a_db st)) eqn:Ld; eauto.
+    destruct (a_lock r) eqn:Al.
+    + apply andb_prop in OK. destruct OK as [Fr OK].
+      destruct (register st x) as [st1 e1] eqn:E. eapply IH; [|exact OK|exact H]. eapply register_inv; eauto.
+    + destruct (unregister st x) as [st1 e1] eqn:E. eapply IH; [|exact OK|exact H]. eapply unregister_inv; eauto.
 Qed.
 
 Lemma with_post_inv cfg hist st s ev st' ev' :
